@@ -12,7 +12,7 @@
    passing the package detector, the bundle created by the append path tagged, no scratch group after a replace: C09/C18).
    PARTIAL: list saves holding rooted items of a root the file already has are validated on real files by the harness
    after every successful save of every scenario, not by a theorem. *)
-From Emd Require Import Base.Prelude Model.H5 Model.Emd Model.Reader Generated.Tables Proofs.PTree Proofs.P05 Proofs.P20 Proofs.PRead Proofs.PUnion Proofs.PUnionAO Proofs.PWf Proofs.PMulti Proofs.PAfter Proofs.PMixed Proofs.PTarget Proofs.PSubst.
+From Emd Require Import Base.Prelude Model.H5 Model.Emd Model.Reader Generated.Tables Proofs.PTree Proofs.P05 Proofs.P20 Proofs.PRead Proofs.PUnion Proofs.PUnionAO Proofs.PWf Proofs.PMulti Proofs.PAfter Proofs.PMixed Proofs.PTarget Proofs.PSubst Proofs.PScratch.
 From Emd Require Import Model.EmdList.
 From Emd Require Generated.Version.
 
@@ -279,6 +279,24 @@ Theorem C05_a_mixed_list_appended_to_an_existing_file_passes_the_validator :
     exists f, write_list c (H5 (forest_file c ts)) tops items (WA md tr None) = (Ok tt, H5 f) /\ wf_emd c f = true.
 Proof. exact wf_mixed_list_into_an_existing_file. Qed.
 Print Assumptions C05_a_mixed_list_appended_to_an_existing_file_passes_the_validator.
+
+(* ---------- the one clause of harness/validator.py that wf_emd does not carry: no scratch name among the entries of any metadata
+   bundle (Proofs/PScratch.v).  Every file that is the encoding of trees has it when the trees' own metadata keys are not
+   scratch names -- and the trees the append / append-over theorems arrive at (union, union + replace) keep that hypothesis *)
+Theorem C05_no_scratch_entry_in_any_metadata_bundle_of_written_trees :
+  forall c ts, Forall (fun t => rname t <> "metadatabundle" /\ md_keys_plain t) ts -> bundles_clean (forest_file c ts) = true.
+Proof. exact forest_file_bundles_clean. Qed.
+Print Assumptions C05_no_scratch_entry_in_any_metadata_bundle_of_written_trees.
+
+Theorem C05_union_and_replacement_keep_metadata_keys_free_of_scratch_names :
+  forall T root, md_keys_plain T -> md_keys_plain root ->
+    md_keys_plain (union_root T root) /\ md_keys_plain (with_kids T (aom root (rkids T))).
+Proof. intros T root HT Hr. split; [apply md_keys_plain_union_root|apply md_keys_plain_appendover]; assumption. Qed.
+Print Assumptions C05_union_and_replacement_keep_metadata_keys_free_of_scratch_names.
+
+Example C05_bundle_clause_rejects :
+  bundles_clean (G [] [("r", G [] [("metadatabundle", G [] [("_tmp_m1", md_group 1); ("m1", md_group 2)])])]) = false.
+Proof. vm_compute. reflexivity. Qed.
 
 (* the validator is not vacuous: it rejects an untagged child group, a missing calibration dataset and a scratch group *)
 Example C05_validator_rejects :
